@@ -12,6 +12,7 @@ Oracle : cells(result) == base cells with atts <- atts U spec (later wins), text
 import itertools
 
 from mc import cells as C
+from mc import sgr
 from mc.runner import Acc, Report
 
 LEVEL = "model_checking"
@@ -85,8 +86,22 @@ def bases():
     return out
 
 
-def make_base(b):
-    return b[1] if b[0] == "str" else C.build(b[1])
+def make_base(b, warm=False):
+    """warm: render / measure the base first, so that every memo of the operand is filled before formatting is applied."""
+    if b[0] == "str":
+        return b[1]
+    f = C.build(b[1])
+    if warm:
+        str(f), len(f), f.s
+        try:
+            f.width
+        except ValueError:
+            pass
+    return f
+
+
+def displayed(r):
+    return sgr.interpret(str(r))[0]
 
 
 def show_base(b):
@@ -100,16 +115,18 @@ def shard_single(args):
     tier, seed, idx = args
     acc = Acc(seed=seed)
     bs = bases()
-    for bi in range(idx, len(bs), 16):
+    for bi, warm in itertools.product(range(idx, len(bs), 16), (False, True)):
         b = bs[bi]
-        base = make_base(b)
+        if warm and b[0] == "str":
+            continue
+        base = make_base(b, warm)
         bc = C.cells(base)
         for kind, value in ALL_ATTS:
             want = apply_model(bc, {kind: model_value(kind, value)})
             ref_str = None
             for label, fn in spellings(kind, value):
-                case = {"base": show_base(b), "att": [kind, value], "spelling": label}
-                acc.case(bool(bc), key=("1", bi, kind, value, label), sample=case)
+                case = {"base": show_base(b), "att": [kind, value], "spelling": label, "base_rendered_first": warm}
+                acc.case(bool(bc), key=("1", bi, kind, value, label, warm), sample=case)
                 acc.transitions += 1
                 try:
                     r = fn(base)
@@ -121,6 +138,8 @@ def shard_single(args):
                 acc.state(hash(s))
                 if got != want:
                     acc.failure("C14:apply_result", case, "got %r expected %r" % (got, want))
+                elif displayed(r) != want:
+                    acc.failure("C14:apply_display", case, "terminal string %r shows %r, expected %r" % (s, displayed(r), want))
                 if ref_str is None:
                     ref_str = s
                 elif s != ref_str:
@@ -164,20 +183,24 @@ def shard_multi(args):
                     else:
                         kw[k] = v
                 for b in use_bases:
-                    base = make_base(b)
+                    warm = (len(pos) + len(str(b))) % 2 == 1
+                    base = make_base(b, warm)
                     bc = C.cells(base)
                     want = apply_model(bc, spec)
-                    case = {"base": show_base(b), "atts": [list(kinds), list(values)], "positional": pos, "kw": kw, "how": "one call"}
+                    case = {"base": show_base(b), "atts": [list(kinds), list(values)], "positional": pos, "kw": kw, "how": "one call", "base_rendered_first": warm}
                     acc.case(bool(bc), key=("m", b, kinds, values, spell), sample=case)
                     acc.transitions += 1
                     try:
-                        got = C.cells(fmtstr(base, *pos, **kw))
+                        r = fmtstr(base, *pos, **kw)
+                        got = C.cells(r)
                     except Exception as ex:  # noqa
                         acc.failure("C14:apply_raises:" + type(ex).__name__, case, repr(ex))
                         continue
                     acc.state(hash(tuple(got)))
                     if got != want:
                         acc.failure("C14:apply_result", case, "got %r expected %r" % (got, want))
+                    elif displayed(r) != want:
+                        acc.failure("C14:apply_display", case, "terminal string shows %r, expected %r" % (displayed(r), want))
             # nested, in every order (keyword spelling)
             for order in itertools.permutations(range(len(kinds))):
                 for b in use_bases:
@@ -191,12 +214,16 @@ def shard_multi(args):
                         r = base
                         for o in order:
                             r = fmtstr(r, **{kinds[o]: values[o]})
+                            if order[0] % 2 == 0:
+                                str(r)  # render the intermediate value in half of the orders
                         got = C.cells(r)
                     except Exception as ex:  # noqa
                         acc.failure("C14:apply_raises:" + type(ex).__name__, case, repr(ex))
                         continue
                     if got != want:
                         acc.failure("C14:nested_result", case, "got %r expected %r" % (got, want))
+                    elif displayed(r) != want:
+                        acc.failure("C14:nested_display", case, "terminal string shows %r, expected %r" % (displayed(r), want))
             # same kind twice: the later value wins
             k0 = kinds[0]
             for v1, v2 in itertools.permutations(kind_values(k0), 2):
@@ -225,19 +252,24 @@ def shard_remove(args):
         spec = specs[si]
         f = C.build(spec)
         fc = C.cells(f)
-        snap = C.snapshot(f)
+        snap = C.snapshot(f)  # renders f: removal below works on an operand whose memos are filled
+        cold = C.build(spec)
         for names in names_pool:
             case = {"f": C.show_spec(spec), "remove": list(names)}
             acc.case(bool(fc) and bool(names), key=("r", spec, names), sample=case)
             acc.transitions += 1
             want = [(c, tuple(p for p in a if p[0] not in names)) for c, a in fc]
             try:
-                got = C.cells(f.new_with_atts_removed(*names))
+                r = f.new_with_atts_removed(*names)
+                got = C.cells(r)
+                got_cold = C.cells(cold.new_with_atts_removed(*names))
             except Exception as ex:  # noqa
                 acc.failure("C14:remove_raises:" + type(ex).__name__, case, repr(ex))
                 continue
-            if got != want:
+            if got != want or got_cold != want:
                 acc.failure("C14:remove_result", case, "got %r expected %r" % (got, want))
+            elif displayed(r) != want:
+                acc.failure("C14:remove_display", case, "terminal string shows %r, expected %r" % (displayed(r), want))
         # shared_atts: only values every character has
         if len(spec) >= 1:
             case = {"f": C.show_spec(spec), "op": "shared_atts"}
